@@ -2,3 +2,6 @@ import DurableModel.Ident
 import DurableModel.Lock
 import DurableModel.Batcher
 import DurableModel.Serdes
+import DurableModel.Policy
+import DurableModel.Strategy
+import DurableModel.Outcome
